@@ -35,6 +35,9 @@ ASSUME = [
     "the model is the REPAIRED encrypt (fixes/C15-always-pad.patch); the shipped pad-only-when-unaligned policy is "
     "kept as encrypt_unaligned_only with theorem C15_unaligned_only_refuted and corpus/C15 witnesses",
     "Python slicing c[:-10], c[-10:], derived[48:80], ByteUtil.split = firstn/skipn; bytes equality = bytes_eqb",
+    "the model is a pure function; that a MediaCipher OBJECT is one too (no result depends on earlier calls on it "
+    "or on another instance) is established by driving one and two objects through exhaustively enumerated call "
+    "pairs and random call sequences (C15_history_independent / C15_memo_by_key_refuted state it in Coq)",
     "the tie model<->code is differential testing: exhaustive over lengths 0..64 x 4 kinds, every single-byte "
     "corruption and every truncation of those ciphertexts, random larger; independent implementation both ways",
 ]
@@ -225,6 +228,224 @@ def tamper_variants(ctx, c, full):
     return out
 
 
+# ----------------------------------------------------------------------------------------
+# history independence: the model is a pure function of (plaintext/ciphertext, key, kind), so the
+# tie must also establish that a MediaCipher OBJECT is one -- whatever was called on it (or on
+# another instance: the state could be class-level) before.
+# call = {"inst": 0|1, "via": "wrapper"|"generic", "op": "enc"|"dec", "kind": k, "key": bytes, "data": bytes}
+def call_on(inst, call):
+    """run one call on a live MediaCipher instance -> ('ok', bytes) | ('err',)"""
+    try:
+        if call["via"] == "wrapper":
+            r = getattr(inst, ("encrypt_" if call["op"] == "enc" else "decrypt_") + call["kind"])(call["data"], call["key"])
+        else:
+            f = inst.encrypt if call["op"] == "enc" else inst.decrypt
+            r = f(call["data"], call["key"], KINDS[call["kind"]])
+        return ("ok", bytes(r))
+    except Exception:
+        return ("err",)
+
+
+def expected_alone(call):
+    """what the call must return judged from its own arguments alone (independent implementation)"""
+    info = KINDS[call["kind"]]
+    if call["op"] == "enc":
+        return ("ok", ref_encrypt(call["data"], call["key"], info))
+    r = ref_decrypt(call["data"], call["key"], info)
+    return ("ok", r) if r is not None else ("err",)
+
+
+def model_alone(model, cache, call):
+    """the extracted (pure) model on this call's arguments alone, canonicalised like call_on"""
+    k = (call["op"], call["kind"], call["key"], call["data"])
+    if k not in cache:
+        info = KINDS[call["kind"]]
+        if call["op"] == "enc":
+            r = model.call("orun_encrypt", [1, call["data"], call["key"], info])
+            cache[k] = ("ok", r) if isinstance(r, bytes) else ("exn", repr(r))
+        else:
+            m = canon_model_dec(model.call("orun_decrypt", [call["data"], call["key"], info]))
+            cache[k] = ("ok", m[1]) if m[0] == "ok" else ("err",) if m[0] == "err" else m
+    return cache[k]
+
+
+def run_sequence(seq):
+    """fresh instances, the calls in order -> list of results"""
+    from yowsup.layers.protocol_media.mediacipher import MediaCipher
+    insts = {}
+    out = []
+    for call in seq:
+        if call["inst"] not in insts:
+            insts[call["inst"]] = MediaCipher()
+        out.append(call_on(insts[call["inst"]], call))
+    return out
+
+
+def seq_json(seq, results=None, expected=None):
+    out = []
+    for i, c in enumerate(seq):
+        d = {"inst": c["inst"], "via": c["via"], "op": c["op"], "kind": c["kind"], "key": c["key"].hex(),
+             "data": c["data"].hex()}
+        if results is not None:
+            d["observed"] = [results[i][0]] + [x.hex() for x in results[i][1:]]
+        if expected is not None:
+            d["expected"] = [expected[i][0]] + [x.hex() for x in expected[i][1:]]
+        out.append(d)
+    return out
+
+
+def seq_unjson(js):
+    return [{"inst": d["inst"], "via": d["via"], "op": d["op"], "kind": d["kind"], "key": bytes.fromhex(d["key"]),
+             "data": bytes.fromhex(d["data"])} for d in js]
+
+
+def first_bad(seq, want):
+    """index of the first call whose result differs from want(call), else None"""
+    res = run_sequence(seq)
+    for i, c in enumerate(seq):
+        if res[i] != want(c):
+            return i
+    return None
+
+
+def shrink_sequence(seq, want):
+    """keep the first failing call, greedily drop earlier calls while it still fails"""
+    i = first_bad(seq, want)
+    if i is None:
+        return seq
+    seq = seq[:i + 1]
+    j = 0
+    while j < len(seq) - 1:
+        cand = seq[:j] + seq[j + 1:]
+        res = run_sequence(cand)
+        if res[-1] != want(cand[-1]) and all(res[x] == want(cand[x]) for x in range(len(cand) - 1)):
+            seq = cand
+        else:
+            j += 1
+    return seq
+
+
+def pair_alphabet(rng, key, p):
+    """every call shape for one key: 4 kinds x {wrapper, generic} x {enc, dec of a genuine file of each kind}"""
+    calls = []
+    genuine = {k: ref_encrypt(p, key, KINDS[k]) for k in KIND_ORDER}
+    for via in ("wrapper", "generic"):
+        for kind in KIND_ORDER:
+            calls.append({"via": via, "op": "enc", "kind": kind, "key": key, "data": p})
+            for ck in KIND_ORDER:
+                calls.append({"via": via, "op": "dec", "kind": kind, "key": key, "data": genuine[ck]})
+    return calls
+
+
+def random_sequence(rng, keys, n):
+    seq, produced = [], []
+    for _ in range(n):
+        key = rng.choice(keys)
+        kind = rng.choice(KIND_ORDER)
+        c = {"inst": rng.choice([0, 0, 0, 1]), "via": rng.choice(["wrapper", "generic"]), "kind": kind, "key": key}
+        if seq and rng.random() < .5:         # aim at the memo: same key as the previous call, another kind
+            c["key"] = seq[-1]["key"]
+            c["kind"] = rng.choice([k for k in KIND_ORDER if k != seq[-1]["kind"]])
+        if rng.random() < .45:
+            c["op"] = "enc"
+            c["data"] = rng.randbytes(rng.choice([0, 1, 15, 16, 17, 37]))
+            produced.append(ref_encrypt(c["data"], c["key"], KINDS[c["kind"]]))
+        else:
+            c["op"] = "dec"
+            r = rng.random()
+            if r < .45:      # a genuine file for this very (key, kind)
+                c["data"] = ref_encrypt(rng.randbytes(rng.choice([0, 5, 16, 33])), c["key"], KINDS[c["kind"]])
+            elif r < .8:     # a genuine file of another kind and/or key
+                c["data"] = ref_encrypt(rng.randbytes(rng.choice([0, 5, 16, 33])), rng.choice(keys), KINDS[rng.choice(KIND_ORDER)])
+            elif produced:   # something encrypted earlier in this history
+                c["data"] = rng.choice(produced)
+            else:
+                c["data"] = rng.randbytes(rng.choice([0, 9, 26, 42]))
+        seq.append(c)
+    return seq
+
+
+def history_phase(ctx, model, viol, stats):
+    """drives MediaCipher objects through call sequences; every call must return what the pure model /
+    the independent implementation give for that call's arguments alone"""
+    rng = ctx.rng
+    cache, exp_cache = {}, {}
+    n_seq = n_calls = 0
+    mism = 0
+
+    def want(c):
+        k = (c["op"], c["kind"], c["key"], c["data"])
+        if k not in exp_cache:
+            exp_cache[k] = expected_alone(c)
+        return exp_cache[k]
+
+    def check(seq, origin):
+        nonlocal n_seq, n_calls, mism
+        n_seq += 1
+        n_calls += len(seq)
+        res = run_sequence(seq)
+        for i, c in enumerate(seq):
+            exp = want(c)
+            bad_oracle = res[i] != exp
+            bad_model = False
+            if model is not None:
+                m = model_alone(model, cache, c)
+                bad_model = m != res[i]
+            if not (bad_oracle or bad_model):
+                continue
+            if bad_model:
+                mism += 1
+            small = shrink_sequence(seq[:i + 1], want) if bad_oracle else seq[:i + 1]
+            sres = run_sequence(small)
+            alone = run_sequence([dict(small[-1], inst=0)])[0]
+            name = "oracle:history-dependence" if bad_oracle and alone == want(small[-1]) else \
+                   "oracle:sequence" if bad_oracle else "correspondence:C15.sequence"
+            viol(name, {"op": "sequence", "origin": origin, "calls": seq_json(small, sres, [want(c2) for c2 in small]),
+                        "last_call_alone_on_a_fresh_object": [alone[0]] + [x.hex() for x in alone[1:]],
+                        "problem": "the last call does not return what its own arguments determine "
+                                   "(independent implementation / pure model); 'enc' must give the WhatsApp file for "
+                                   "that kind, 'dec' must return the plaintext of a genuine file of that kind+key and "
+                                   "reject everything else"},
+                 found_input=bad_oracle)
+            return False
+        return True
+
+    # --- exhaustive: every ordered pair (call1 on key A) -> (call2 on key A or key B); same object, and
+    #     two objects (class-level state)
+    keyA, keyB = rng.randbytes(32), rng.randbytes(32)
+    pA, pB = rng.randbytes(37), rng.randbytes(16)
+    alphaA, alphaB = pair_alphabet(rng, keyA, pA), pair_alphabet(rng, keyB, pB)
+    pairs = 0
+    for c1 in alphaA:
+        for c2 in alphaA + alphaB:
+            for i2 in (0, 1):
+                pairs += 1
+                if not check([dict(c1, inst=0), dict(c2, inst=i2)], "pair"):
+                    break
+            else:
+                continue
+            break
+        else:
+            continue
+        break
+    # --- a third call after an interleaved one on the other object (X, Y, X) for the memo-shaped triples
+    for c1 in alphaA[::5]:
+        for c2 in alphaB[::7]:
+            for c3 in alphaA[::3]:
+                if c3["kind"] != c1["kind"]:
+                    check([dict(c1, inst=0), dict(c2, inst=1), dict(c3, inst=0)], "triple")
+    # --- seeded random histories over a pool of three keys and two objects
+    nrand, ln = (60, 12) if ctx.tier == "quick" else (1500, 25)
+    for _ in range(nrand):
+        keys = [rng.randbytes(32) for _ in range(3)]
+        if not check(random_sequence(rng, keys, rng.randint(2, ln)), "random"):
+            break
+    ctx.coverage["history_sequences"] = n_seq
+    ctx.coverage["history_calls"] = n_calls
+    ctx.coverage["history_exhaustive_pairs"] = pairs
+    return n_calls, mism
+
+
 def coqchk(ctx):
     """thorough only: independent re-check of the compiled closure with coqchk -o"""
     import subprocess
@@ -255,7 +476,7 @@ def run(ctx):
     evals = 0
     distinct = set()
     kinds = {}
-    mism = {"enc": 0, "dec": 0, "tamper": 0, "crafted": 0, "pad": 0}
+    mism = {"enc": 0, "dec": 0, "tamper": 0, "crafted": 0, "pad": 0, "sequence": 0}
     lens_seen = set()
     errkinds = {}
     limit = {}
@@ -450,6 +671,11 @@ def run(ctx):
                 viol("correspondence:C15.decrypt-garbage", {"op": "decrypt", "kind": kind, "key": key.hex(),
                      "ciphertext": c2.hex(), "impl": repr(r)[:200], "model": repr(md)[:200]}, found_input=False)
 
+    # ---------------- histories: one/two MediaCipher objects driven through call sequences
+    hcalls, hmism = history_phase(ctx, model, viol, stats)
+    evals += hcalls
+    mism["sequence"] = hmism
+
     # ---------------- PKCS#7 model vs cryptography's padder / unpadder
     if model:
         from cryptography.hazmat.primitives import padding
@@ -513,7 +739,10 @@ def run(ctx):
              "decrypt directions.  Then per ciphertext: every single-byte corruption position, every truncation, "
              "head cuts, extensions, wrong kind (3), wrong key (1 bit) on the implementation (must raise) and the "
              "model (must agree).  Then correctly-MACed crafted bodies (bad/edge paddings, non-block lengths) and "
-             "garbage: model == code.  distinct_nontrivial = distinct (kind, plaintext, key) encrypt cases + "
+             "garbage: model == code.  Then histories: every ordered pair of calls (enc / dec of a genuine file of "
+             "each kind, 4 kinds, wrapper and generic entry points) key A -> key A or B on one object and across two "
+             "objects, X-Y-X triples, seeded random sequences over 3 keys and 2 objects: every call must return what "
+             "the pure model and the independent implementation give for its own arguments.  distinct_nontrivial = distinct (kind, plaintext, key) encrypt cases + "
              "distinct crafted valid-MAC decrypt cases (tamper variants are counted separately)",
         assumptions_text=ASSUME)
 
@@ -548,6 +777,20 @@ def replay(ctx, data):
         else:
             print("model said:", case.get("model"))
             bad = False
+    elif op == "sequence":
+        seq = seq_unjson(case["calls"])
+        res = run_sequence(seq)
+        bad = False
+        for i, c in enumerate(seq):
+            exp = expected_alone(c)
+            flag = "" if res[i] == exp else "   <-- differs from what the call's own arguments determine"
+            bad = bad or res[i] != exp
+            print("call %d: obj%d.%s%s(%s, key=%s.., data=%s..)" % (
+                i, c["inst"], "encrypt" if c["op"] == "enc" else "decrypt",
+                "_" + c["kind"] if c["via"] == "wrapper" else "[generic,%s]" % c["kind"], c["kind"],
+                c["key"].hex()[:8], c["data"].hex()[:24]))
+            print("   observed:", res[i][0], res[i][1].hex()[:64] if len(res[i]) > 1 else "")
+            print("   expected:", exp[0], (exp[1].hex()[:64] if len(exp) > 1 else "") + flag)
     elif op == "wrongkind":
         r = impl_decrypt(case["as_kind"], bytes.fromhex(case["ciphertext"]), key)
         print("observed:", r, "expected: an error")
